@@ -1189,7 +1189,12 @@ pub(crate) fn inject_kind(prop: &str, kind: &str, s: &mut Scenario, r: &mut Rng,
                         if cands.is_empty() {
                             return None;
                         }
-                        s.dir.subs[sp].0 = r.pick(&cands).clone();
+                        // (a step name with a dot in it: mostly the name with its last dot-separated part taken for an extension)
+                        let ext_miss = step.rsplit_once('.').filter(|(a, _)| !a.is_empty()).map(|(a, _)| format!("{}.{}", a, short)).filter(|c| cands.contains(c));
+                        s.dir.subs[sp].0 = match ext_miss {
+                            Some(c) if r.chance(3, 4) => c,
+                            _ => r.pick(&cands).clone(),
+                        };
                         desc = format!("the sub-layout's links are in `{}` instead of its own sub-directory `{}`", s.dir.subs[sp].0, subname);
                     }
                     "sub_unlisted_functionary" => {
@@ -1560,7 +1565,15 @@ pub fn run_into(sink: &mut Sink, cfg: &Cfg, prop: &str, n: usize) {
             let kind = if i % 10 == 2 { "differing_links_t1" } else { "differing_links_t1_rules" };
             let _ = inject_kind(prop, kind, &mut s, &mut r, &pool);
         }
-        for _ in 0..nfaults {
+        // (C15, every fifth scenario: the delegated evidence lies in a directory whose name is a near miss of the
+        // sub-layout's own - for a step name with a dot in it mostly the name with its last part taken for an
+        // extension)
+        if prop == "C15" && i % 5 == 2 {
+            if let Some(f) = inject_kind(prop, "sub_dir_misnamed", &mut s, &mut r, &pool) {
+                s.faults.push(f);
+            }
+        }
+        for _ in 0..(if prop == "C15" && i % 5 == 2 && !s.faults.is_empty() { 0 } else { nfaults }) {
             if let Some(f) = inject(prop, &mut s, &mut r, &pool) {
                 s.faults.push(f);
             }
